@@ -115,6 +115,18 @@ func ApplyData(fs *envfs.FS, paths []string, recFiles []string, sliceSize int, s
 		nb := append([]byte{}, b...)
 		nb = append(nb, make([]byte, d.N)...)
 		fs.Put(paths[d.F], nb)
+	case "xchg":
+		// bytes [At, At+N) of file F and of file G change places (both files keep their lengths)
+		a, oka := fs.Get(paths[d.F])
+		b, okb := fs.Get(paths[d.G])
+		if oka && okb && d.At+d.N <= len(a) && d.At+d.N <= len(b) {
+			a2 := append([]byte{}, a...)
+			b2 := append([]byte{}, b...)
+			copy(a2[d.At:d.At+d.N], b[d.At:d.At+d.N])
+			copy(b2[d.At:d.At+d.N], a[d.At:d.At+d.N])
+			fs.Put(paths[d.F], a2)
+			fs.Put(paths[d.G], b2)
+		}
 	case "swap":
 		a, oka := fs.Get(paths[d.F])
 		b, okb := fs.Get(paths[d.G])
